@@ -214,6 +214,20 @@ def build(reg, src):
     ws_send.__name__ = 'ws-send-kinds'
     reg.extra_checks.append(ws_send)
     reg.bounded.append(dict(check='ws-send-kinds', tool='native execution of encode_message on values produced by the interpreter', bound='14 kinds of value (literal and computed)', result='see rows'))
+    # "the handler is called exactly once per request / message": route handlers and .ws.m are stored as KGFnWrapper objects, so the
+    # sentence rests on KGFnWrapper.__call__ evaluating the (re-resolved) function exactly once also when its body raises - its contract
+    # is in contracts/c09.py; re-verified here, not assumed
+    def handler_wrapper_calls_once(ctx):
+        from pyvc.subverify import subverify
+        from contracts import c09
+        import replay.c09 as rp9
+        key = 'klongpy/types.py::KGFnWrapper.__call__'
+        rows, _ = subverify(src, 'C20', c09, [key], replay=rp9.replay_wrapper, why='a wrapped handler is evaluated exactly once per call, also when its body raises')
+        if src.find(key) is not None:
+            ctx['eng'].verified[key] = dict(sha=src.sha(src.find(key)), backend='z3 (contract of contracts/c09.py)')
+        return rows
+    handler_wrapper_calls_once.__name__ = 'handler-wrapper-calls-once'
+    reg.extra_checks.append(handler_wrapper_calls_once)
     reg.replays.append((r'shutdown_web_server|WebServerHandle', rp.replay_webc))
     reg.replays.append((r'NetworkClient\._listen|decode_message', rp.replay_listen_kinds))
     reg.replays.append((r'.', rp.replay_web))
